@@ -50,7 +50,7 @@ BOUNDS = {
            "{00,59} x all 1000 ms; cue text: 11 shapes x 9 tag spellings per slot (depth <= 3), 8 ruby shapes, 9 "
            "character references x 9 neighbours x 4 contexts, annotations, 9 time-stamp shapes x 3 cue begins x 2 "
            "spellings x 3 tags; settings: vertical 3 x line 29 x position 17 x size 3 x align 6 = 26622 files of 4 "
-           "cues; lay-out product of 29160 files; writer round trip 576 documents x 8 configurations",
+           "cues; lay-out product of 19440 files; writer round trip 576 documents x 8 configurations",
   "thorough": "as quick with E-states depth 6 (+ prefix depth 6), 3 renderings (LF, LF without final EOL, CRLF), tag-token sequences <= 5",
 }
 ASSUMPTIONS = [
@@ -889,7 +889,7 @@ HEADERS = ["WEBVTT", "WEBVTT - a title", "WEBVTT\tx"]
 PRE = ["none", "note", "style", "region", "all"]
 IDS = ["none", "number", "text"]
 MID = ["none", "note1", "noteN"]
-LAYOUT = Product([HEADERS, PRE, [1, 2, 3], IDS, MID, [1, 2, 3], ["\n", "\r\n"], [1, 2], ["none", "nl", "blank2"], [False, True]])
+LAYOUT = Product([HEADERS, PRE, [1, 2, 3], IDS, MID, [1, 3], ["\n", "\r\n"], [1, 2], ["none", "nl", "blank2"], [False, True]])
 
 
 def fam_layout():
